@@ -79,6 +79,7 @@ def run(run):
         for m, p in sorted(pool.items()):
             if m == 7:
                 hist = [{'op': 'decode_fails', 'm': 7}]
+                jobs.append((m, [{'op': 'decode_ive', 'm': 7}]))
             else:
                 hist = [{'op': 'decode', 'm': m}, {'op': 'query', 'm': m}, {'op': 'render', 'm': m}, {'op': 'rewire', 'm': m}]
             jobs.append((m, hist))
@@ -93,7 +94,7 @@ def run(run):
         if 'error' not in ref[('decode_fails', 7)]:
             raise MachineryError('the damaged pool message decodes')
         for (op, m), res in ref.items():
-            if op != 'decode_fails' and 'error' in res:
+            if op != 'decode_fails' and 'error' in res:        # incl. decode_ive: the lenient decode of the damaged message succeeds
                 raise MachineryError('reference run of %s(%d) failed: %r' % (op, m, res))
         # ---- the transition tours
         configs = [(1, -1), (2, 1), (1, 2), (2, 0)] if not thorough else [(1, -1), (1, 0), (1, 1), (1, 2), (2, -1), (2, 0), (2, 1), (2, 2), (3, 1)]
